@@ -132,27 +132,21 @@ GroupCurs(cols, rows, j, ocols, off) ==
 ShapeOK(rows, ocols, orows) ==
     /\ Len(orows) = Len(rows)
     /\ \A r \in DOMAIN orows : Len(orows[r]) = Len(ocols)
-LayoutOK(cols, rows, ocols) == Layout(cols, rows, ocols)[Len(cols)] = Len(ocols)
 
-PlainDescOK(cols, rows, ocols) ==
-    LET off == Layout(cols, rows, ocols) IN
+(* the clauses, given the layout off (off[j] = index of the last output column owned by input column j) *)
+PlainDescOK(cols, ocols, off) ==
     \A j \in DOMAIN cols : ~IsAmt(cols[j]) =>
         ocols[off[j]].name = cols[j].name /\ ocols[off[j]].ty = cols[j].ty
-PlainIdentityOK(cols, rows, ocols, orows) ==
-    LET off == Layout(cols, rows, ocols) IN
+PlainIdentityOK(cols, rows, orows, off) ==
     \A j \in DOMAIN cols : ~IsAmt(cols[j]) =>
         \A r \in DOMAIN rows : orows[r][off[j]].tok = rows[r][j].tok
-NoDropAll(cols, rows, ocols) ==
-    LET off == Layout(cols, rows, ocols) IN
+NoDropAll(cols, rows, ocols, off) ==
     \A j \in DOMAIN cols : IsAmt(cols[j]) => NoDropOK(rows, j, GroupCurs(cols, rows, j, ocols, off))
-NoInventAll(cols, rows, ocols) ==
-    LET off == Layout(cols, rows, ocols) IN
+NoInventAll(cols, rows, ocols, off) ==
     \A j \in DOMAIN cols : IsAmt(cols[j]) => NoInventOK(rows, j, GroupCurs(cols, rows, j, ocols, off))
-FreqAll(cols, rows, ocols) ==
-    LET off == Layout(cols, rows, ocols) IN
+FreqAll(cols, rows, ocols, off) ==
     \A j \in DOMAIN cols : IsAmt(cols[j]) => FreqOK(rows, j, GroupCurs(cols, rows, j, ocols, off))
-CellsAll(cols, rows, fmt, q, ocols, orows) ==
-    LET off == Layout(cols, rows, ocols) IN
+CellsAll(cols, rows, fmt, q, ocols, orows, off) ==
     \A j \in DOMAIN cols : IsAmt(cols[j]) =>
         LET cs == GroupCurs(cols, rows, j, ocols, off) IN
         \A r \in DOMAIN rows : \A i \in DOMAIN cs :
@@ -161,25 +155,29 @@ CellsAll(cols, rows, fmt, q, ocols, orows) ==
 (* THE PROPERTY: (ocols, orows) is an acceptable numberification of (cols, rows) under formatter (fmt, q) *)
 Accepts(cols, rows, fmt, q, ocols, orows) ==
     /\ ShapeOK(rows, ocols, orows)
-    /\ LayoutOK(cols, rows, ocols)
-    /\ PlainDescOK(cols, rows, ocols)
-    /\ PlainIdentityOK(cols, rows, ocols, orows)
-    /\ NoInventAll(cols, rows, ocols)
-    /\ NoDropAll(cols, rows, ocols)
-    /\ FreqAll(cols, rows, ocols)
-    /\ CellsAll(cols, rows, fmt, q, ocols, orows)
+    /\ LET off == Layout(cols, rows, ocols) IN
+       /\ off[Len(cols)] = Len(ocols)
+       /\ PlainDescOK(cols, ocols, off)
+       /\ PlainIdentityOK(cols, rows, orows, off)
+       /\ NoInventAll(cols, rows, ocols, off)
+       /\ NoDropAll(cols, rows, ocols, off)
+       /\ FreqAll(cols, rows, ocols, off)
+       /\ CellsAll(cols, rows, fmt, q, ocols, orows, off)
 
 (* names of the clauses that fail, for reports *)
 FailedClauses(cols, rows, fmt, q, ocols, orows) ==
     IF ~ShapeOK(rows, ocols, orows) THEN <<"shape">>
-    ELSE IF ~LayoutOK(cols, rows, ocols) THEN <<"layout">>
-    ELSE SelectSeq(<<"plain-desc", "plain-identity", "no-invented-column", "no-currency-dropped", "frequency-order", "cells">>,
-                   LAMBDA n : CASE n = "plain-desc" -> ~PlainDescOK(cols, rows, ocols)
-                                [] n = "plain-identity" -> ~PlainIdentityOK(cols, rows, ocols, orows)
-                                [] n = "no-invented-column" -> ~NoInventAll(cols, rows, ocols)
-                                [] n = "no-currency-dropped" -> ~NoDropAll(cols, rows, ocols)
-                                [] n = "frequency-order" -> ~FreqAll(cols, rows, ocols)
-                                [] n = "cells" -> ~(NoInventAll(cols, rows, ocols) /\ CellsAll(cols, rows, fmt, q, ocols, orows)))
+    ELSE LET off == Layout(cols, rows, ocols) IN
+         IF off[Len(cols)] # Len(ocols) THEN <<"layout">>
+         ELSE SelectSeq(<<"plain-desc", "plain-identity", "no-invented-column", "no-currency-dropped",
+                          "frequency-order", "cells">>,
+                        LAMBDA n : CASE n = "plain-desc" -> ~PlainDescOK(cols, ocols, off)
+                                     [] n = "plain-identity" -> ~PlainIdentityOK(cols, rows, orows, off)
+                                     [] n = "no-invented-column" -> ~NoInventAll(cols, rows, ocols, off)
+                                     [] n = "no-currency-dropped" -> ~NoDropAll(cols, rows, ocols, off)
+                                     [] n = "frequency-order" -> ~FreqAll(cols, rows, ocols, off)
+                                     [] n = "cells" -> ~(NoInventAll(cols, rows, ocols, off)
+                                                         /\ CellsAll(cols, rows, fmt, q, ocols, orows, off)))
 
 (* The same statement in generative form (used to emit expectations for the spec -> code replay) *)
 AcceptOrders(rows, j) ==
